@@ -191,6 +191,11 @@ func (g *FnGen) instr(ins ssa.Instruction) {
 		lf, ls := g.mapLenFam(mt)
 		g.heapSet(g.cur, lf, fmt.Sprintf("(store %s %s %s)", g.heapGet(g.cur, lf, ls), ref, g.ilit64(0)))
 		g.vals[i] = Val{T: ref, S: "Int", GT: i.Type()}
+	case *ssa.MakeChan:
+		// a channel is an opaque fresh object (no channel operation is in the subset; only its identity is used)
+		ref := g.allocRef(g.cur)
+		g.note("make(chan): the channel is an opaque fresh reference (channel operations are outside the subset)")
+		g.vals[i] = Val{T: ref, S: g.sortOf(i.Type()), GT: i.Type()}
 	case *ssa.Extract:
 		t := g.val(i.Tuple)
 		if i.Index >= len(t.Tuple) {
@@ -450,6 +455,14 @@ func (g *FnGen) convert(i *ssa.Convert) {
 	case isString(to) && fi:
 		g.unknown(i)
 	default:
+		if isFloat(from) && !isFloat(to) {
+			if _, _, ok := intInfo(to); ok {
+				// float -> integer: a deterministic (uninterpreted) function of the float value, within the range of the target type
+				r := g.define(i, g.floatToInt(x.T, to), g.sortOf(to))
+				g.assumeHere(g.typeFacts(r, to))
+				return
+			}
+		}
 		if isFloat(to) || isFloat(from) {
 			g.unknown(i)
 			return
@@ -866,4 +879,15 @@ func (g *FnGen) interiorPtr() string {
 	n := g.fresh("iptr", "Int")
 	g.assume(fmt.Sprintf("(> %s 0)", n))
 	return n
+}
+
+// floatToInt: Go's float -> integer conversion as an uninterpreted function per target type (deterministic; its value is not modelled).
+func (g *FnGen) floatToInt(x string, to types.Type) string {
+	fn := "f2i_" + sanitize(typeKey(to.Underlying()))
+	if !g.declared[fn] {
+		g.declared[fn] = true
+		g.decls = append(g.decls, fmt.Sprintf("(declare-fun %s (F64) %s)", fn, g.sortOf(to)))
+		g.note("float -> integer conversion modelled as an uninterpreted function of the float value")
+	}
+	return fmt.Sprintf("(%s %s)", fn, x)
 }
